@@ -109,6 +109,13 @@ def _measured(f, b):
     return lo, so
 
 
+def _chain(f, start, through=()):
+    """(origins, text) of a value; the text names `&mut` borrows taken on the way (in-place mutation the trace cannot see)."""
+    o, st = L.trace(f, start, through)
+    mb = L.mut_borrows(f, st.locals)
+    return o, not mb, L.describe(o) + (" (mutably borrowed on the way at %d place(s))" % len(mb) if mb else "")
+
+
 def _err_sites(f):
     """Blocks that write a certain Err to the return place: `Err(..)` aggregates reaching _0 and `?` residual conversions."""
     o, _ = L.trace(f, (0, (("dc", "Err"),)))
@@ -187,17 +194,17 @@ def r1_codec(ctx, rid="C14.R1"):
     ctx.check(R, "same-json-type", te is not None and te == td and te.startswith(TOKEN_ADT + "<"),
               "serde_json serialises %s and parses %s" % (te, td), (fd, jin[0]))
     # encoder chain: Ok payload <- encode(json bytes) <- Ok payload of to_vec(&SerializedToken{v, page_start: param})
-    o, _ = L.ok_payload(fs)
-    ctx.check(R, "issued-token-is-the-encoding", L.only_call(o, B64_ENC, enc[0], ()),
-              "the Ok payload returned by the encoder originates from %s (must be the Engine::encode result, untransformed)" % L.describe(o), fs)
-    o, _ = L.trace(fs, enc[1]["args"][1], PLUMBING + VIEWS)
-    ctx.check(R, "encoded-bytes-are-the-json", L.only_call(o, JSON_OUT, jout[0], L.OK_0),
-              "Engine::encode's data argument originates from %s (must be the Ok payload of serde_json::to_vec)" % L.describe(o), (fs, enc[0]))
-    o, _ = L.trace(fs, jout[1]["args"][0], PLUMBING)
+    o, pure, txt = _chain(fs, (0, L.OK_0))
+    ctx.check(R, "issued-token-is-the-encoding", L.only_call(o, B64_ENC, enc[0], ()) and pure,
+              "the Ok payload returned by the encoder originates from %s (must be the Engine::encode result, untransformed)" % txt, fs)
+    o, pure, txt = _chain(fs, enc[1]["args"][1], PLUMBING + VIEWS)
+    ctx.check(R, "encoded-bytes-are-the-json", L.only_call(o, JSON_OUT, jout[0], L.OK_0) and pure,
+              "Engine::encode's data argument originates from %s (must be the Ok payload of serde_json::to_vec)" % txt, (fs, enc[0]))
+    o, pure, txt = _chain(fs, jout[1]["args"][0], PLUMBING)
     vi, pi = _field_index(ctx, TOKEN_ADT, "v"), _field_index(ctx, TOKEN_ADT, "page_start")
     tok = o[0] if len(o) == 1 and o[0].kind == "agg" and o[0].info.get("adt") == TOKEN_ADT and not o[0].proj else None
     written = None
-    ctx.check(R, "json-input-is-the-token-struct", tok is not None, "serde_json::to_vec's argument originates from %s (must be one SerializedToken{..} aggregate)" % L.describe(o), (fs, jout[0]))
+    ctx.check(R, "json-input-is-the-token-struct", tok is not None and pure, "serde_json::to_vec's argument originates from %s (must be one SerializedToken{..} aggregate)" % txt, (fs, jout[0]))
     if tok is None or vi is None or pi is None:
         ctx.lost(R, "the SerializedToken{v, page_start} aggregate serialised by the encoder")
     else:
@@ -208,14 +215,14 @@ def r1_codec(ctx, rid="C14.R1"):
         written = vs[0] if vs and len(vs) == 1 else None
         ctx.check(R, "version-written", written is not None, "SerializedToken.v originates from %s = variant %s" % (L.describe(sv), vs), (fs, tok.bb))
     # decoder chain
-    o, _ = L.trace(fd, dec[1]["args"][1], PLUMBING + AS_BYTES)
-    ctx.check(R, "decoded-text-is-the-argument", L.only_param(o, 1), "Engine::decode's input originates from %s (must be the token text, untransformed)" % L.describe(o), (fd, dec[0]))
-    o, _ = L.trace(fd, jin[1]["args"][0], PLUMBING + AS_BYTES)
-    ctx.check(R, "json-parses-the-decoded-bytes", L.only_call(o, B64_DEC, dec[0], L.OK_0),
-              "serde_json::from_slice's input originates from %s (must be the Ok payload of Engine::decode)" % L.describe(o), (fd, jin[0]))
-    o, _ = L.ok_payload(fd)
-    ctx.check(R, "selector-is-parsed-page_start", len(o) == 1 and _is_parsed_field(o[0], jin[0], "page_start"),
-              "the Ok payload returned by the decoder originates from %s (must be the page_start field of the parsed token)" % L.describe(o), fd)
+    o, pure, txt = _chain(fd, dec[1]["args"][1], PLUMBING + AS_BYTES)
+    ctx.check(R, "decoded-text-is-the-argument", L.only_param(o, 1) and pure, "Engine::decode's input originates from %s (must be the token text, untransformed)" % txt, (fd, dec[0]))
+    o, pure, txt = _chain(fd, jin[1]["args"][0], PLUMBING + AS_BYTES)
+    ctx.check(R, "json-parses-the-decoded-bytes", L.only_call(o, B64_DEC, dec[0], L.OK_0) and pure,
+              "serde_json::from_slice's input originates from %s (must be the Ok payload of Engine::decode)" % txt, (fd, jin[0]))
+    o, pure, txt = _chain(fd, (0, L.OK_0))
+    ctx.check(R, "selector-is-parsed-page_start", len(o) == 1 and _is_parsed_field(o[0], jin[0], "page_start") and pure,
+              "the Ok payload returned by the decoder originates from %s (must be the page_start field of the parsed token)" % txt, fd)
     # version acceptance
     nvar = len(ctx.ds.adts[VERSION_ADT]["variants"])
     feas = L.Feas(fd)
@@ -556,6 +563,15 @@ PG = "dropshot/src/pagination.rs"
 HD = "dropshot/src/handler.rs"
 _DEC_BOUND = "if token_str.len() > MAX_TOKEN_LENGTH {"
 _ENC_BOUND = "if token_bytes.len() > MAX_TOKEN_LENGTH {"
+_DEC_DOC = "/// Deserialize a token from the given string into the consumer's page selector\n"
+_LEN_HELPER = """fn check_token_length(token: &str) -> Result<(), String> {
+    if token.len() > MAX_TOKEN_LENGTH {
+        return Err(String::from("failed to parse pagination token: too large"));
+    }
+    Ok(())
+}
+
+"""
 _CLAMP = ".map(|limit| min(limit, server_config.page_max_nitems))"
 _SOME_ARM = """        Some(page_token) => {
             let page_start = deserialize_page_token(&page_token)"""
@@ -585,6 +601,50 @@ SELFTEST = [
      "expect": ["C14.R3"], "why": "a token that is not base64 panics the request task instead of a 400"},
     {"name": "limit-public", "kind": "mutant", "edits": [(PG, "    pub(crate) limit: Option<NonZeroU32>,", "    pub limit: Option<NonZeroU32>,")],
      "expect": ["C14.R5"], "why": "consumers can read the unclamped limit"},
+    {"name": "dec-bound-helper-result-ignored", "kind": "mutant",
+     "edits": [(PG, _DEC_BOUND + "\n        return Err(String::from(\n            \"failed to parse pagination token: too large\",\n        ));\n    }\n", "let _ = check_token_length(token_str);\n"),
+               (PG, _DEC_DOC, _LEN_HELPER + _DEC_DOC)],
+     "expect": ["C14.R2"], "why": "the size check moved into a Result-returning helper whose result is dropped: over-long tokens are parsed (twin of the benign dec-bound-in-result-helper)"},
+    {"name": "whichpage-token-error-falls-back", "kind": "mutant",
+     "edits": [(PG, _SOME_ARM + "\n                .map_err(serde::de::Error::custom)?;\n            Ok(WhichPage::Next(page_start))",
+                """        Some(page_token) => {
+            match deserialize_page_token(&page_token) {
+                Ok(page_start) => Ok(WhichPage::Next(page_start)),
+                Err(_) => from_map(&raw_params).map(WhichPage::First).map_err(serde::de::Error::custom),
+            }""")],
+     "expect": ["C14.R3", "C14.R4"], "why": "a malformed token is no longer refused: the request silently restarts the scan from the first page"},
+    {"name": "dec-bound-in-result-helper", "kind": "benign",
+     "edits": [(PG, _DEC_BOUND + "\n        return Err(String::from(\n            \"failed to parse pagination token: too large\",\n        ));\n    }\n", "check_token_length(token_str)?;\n"),
+               (PG, _DEC_DOC, _LEN_HELPER + _DEC_DOC)],
+     "why": "behaviour-preserving: the early-return size check extracted into `fn check_token_length(..) -> Result<(), String>` and applied with `?` "
+            "(the helper is inlined; path facts know which variant the helper's Result holds)"},
+    {"name": "whichpage-match-and-chains", "kind": "benign",
+     "edits": [(PG, _SOME_ARM + "\n                .map_err(serde::de::Error::custom)?;\n            Ok(WhichPage::Next(page_start))",
+                """        Some(page_token) => {
+            match deserialize_page_token(page_token.as_str()) {
+                Ok(page_start) => Ok(WhichPage::Next(page_start)),
+                Err(message) => Err(serde::de::Error::custom(message)),
+            }"""),
+               (PG, "            let scan_params =\n                from_map(&raw_params).map_err(serde::de::Error::custom)?;\n            Ok(WhichPage::First(scan_params))",
+                "            from_map(&raw_params).map(WhichPage::First).map_err(serde::de::Error::custom)")],
+     "why": "behaviour-preserving: `.map_err(custom)?` + Ok(..) written as an explicit match / as a `.map(Ctor).map_err(custom)` chain"},
+    {"name": "enc-match-and-debug-assert", "kind": "benign",
+     "edits": [(PG, """            serde_json::to_vec(&serialized_token).map_err(|e| {
+                HttpError::for_internal_error(format!(
+                    "failed to serialize token: {}",
+                    e
+                ))
+            })?;""", """            match serde_json::to_vec(&serialized_token) {
+                Ok(bytes) => bytes,
+                Err(e) => {
+                    return Err(HttpError::for_internal_error(format!(
+                        "failed to serialize token: {}",
+                        e
+                    )));
+                }
+            };"""),
+               (PG, "    Ok(token_bytes)\n}", "    debug_assert!(token_bytes.len() <= MAX_TOKEN_LENGTH);\n    Ok(token_bytes)\n}")],
+     "why": "behaviour-preserving: `.map_err(..)?` written as match + return Err, and a debug_assert! restating the bound (not in release builds)"},
     {"name": "bound-commuted", "kind": "benign", "edits": [(PG, _DEC_BOUND, "if MAX_TOKEN_LENGTH < token_str.len() {"), (PG, _ENC_BOUND, "if !(token_bytes.len() <= MAX_TOKEN_LENGTH) {")],
      "why": "behaviour-preserving: same predicate spelled `K < len` and `!(len <= K)`"},
     {"name": "bound-via-local", "kind": "benign", "edits": [(PG, _DEC_BOUND, "let n = token_str.as_bytes().len();\n    let too_long = n > MAX_TOKEN_LENGTH;\n    if too_long {")],
